@@ -3,4 +3,6 @@ CONSTANTS
   Component = "header"
   Precisions = {1, 4, 8, 12}
   NMixed = 0
+  DEV_XmlDropsHorn = FALSE
+  DEV_ReaderStopsAtFirstUnset = FALSE
 INVARIANT Emit
